@@ -3,7 +3,8 @@
    expected_check, or_is_checked, failing_outputs.  Property theorems only; proofs in
    proofs/OutputsProof.v.  (Statements below are printed by Coq from the lemmas.) *)
 From DTR Require Import Prelude I64 Ast FramedMap Lexer Parser Bind Eval Stmt Iter WfSpec.
-From DTR.proofs Require Import EvalProof IterLogProof OutputsProof NoPanicProof ParserProof BindProof Chain.
+From DTR Require Import GeneratedTables.
+From DTR.proofs Require Import EvalProof IterLogProof OutputsProof NoPanicProof ParserProof BindProof Chain TablesProof.
 Local Open Scope nat_scope.
 
 (* for EVERY first answer outs0 and EVERY later answer outs (no assumption on the driver): a reported value is either X for a signal the first answer did not contain, or the value THIS call reported for THIS signal *)
@@ -100,6 +101,10 @@ Theorem C03_row_outputs_are_the_extracted_values :
   map or_sig (dr_outputs (into_data_row row vals)) = map xe_sig (er_expected row) /\
   map or_expected (dr_outputs (into_data_row row vals)) = map xe_val (er_expected row).
 Proof. exact into_data_row_outputs. Qed.
+
+(* T1: the verdict function of the model is ExpectedValue::check of src/value.rs (pinned on every run) *)
+Theorem C03_check_is_the_source : forall e o, expected_check e o = gen_expected_check e o.
+Proof. exact expected_check_pinned. Qed.
 
 Check C03_no_misattribution.
 Example C03_example : expected_check (XVal (-1)) (OVal (-1)) = true /\ expected_check XZ OX = false /\ expected_check XX OZ = true.
